@@ -353,13 +353,18 @@ where
     /// ```
     pub fn disconnect(&self, other: &K) -> Result<E, Error> {
         match self.find_outbound(other) {
-            Some(other) => match self.inner.2.borrow_mut().remove_outbound(other.key()) {
-                Ok(edge) => {
-                    other.inner.2.borrow_mut().remove_inbound(self.key())?;
-                    Ok(edge)
+            Some(other) => {
+                // End the borrow of `self` before borrowing `other`: for a
+                // self-loop they are the same node.
+                let removed = self.inner.2.borrow_mut().remove_outbound(other.key());
+                match removed {
+                    Ok(edge) => {
+                        other.inner.2.borrow_mut().remove_inbound(self.key())?;
+                        Ok(edge)
+                    }
+                    Err(err) => Err(err),
                 }
-                Err(err) => Err(err),
-            },
+            }
             None => Err(Error::EdgeNotFound),
         }
     }
